@@ -223,11 +223,16 @@ var (
 )
 
 var arityMsg = regexp.MustCompile(`(?i)^Too (few|many) arguments to (\S+)\.`)
+var lambdaMsg = regexp.MustCompile(`(?i)^Too (few|many) arguments to #<function`)
 var genericMsg = regexp.MustCompile(`(?i)^generic-function (\S+) requires at least`)
 
 // arityErrorOf reports whether the message is the argument count error of the function itself (the single family of
 // argcounterror.go and the generic function variant).
 func arityErrorOf(msg, name string) (own, other bool) {
+	if lambdaMsg.MatchString(msg) {
+		// the message of Lambda.Call: the function under test is defined in Lisp (the sample callbacks are built-ins)
+		return true, false
+	}
 	for _, re := range []*regexp.Regexp{arityMsg, genericMsg} {
 		if m := re.FindStringSubmatch(msg); m != nil {
 			if strings.EqualFold(m[len(m)-1], name) {
@@ -390,11 +395,14 @@ wait:
 	done = map[int]outcomeB{}
 	culprit = -1
 	started := -1
+	corrupt := -1
 	data, _ := os.ReadFile(outFile)
 	for _, line := range strings.Split(string(data), "\n") {
 		switch {
 		case strings.HasPrefix(line, "B "):
 			started, _ = strconv.Atoi(line[2:])
+		case strings.HasPrefix(line, "X "):
+			corrupt, _ = strconv.Atoi(line[2:])
 		case strings.HasPrefix(line, "E "):
 			rest := line[2:]
 			sp := strings.IndexByte(rest, ' ')
@@ -410,6 +418,11 @@ wait:
 				}
 			}
 		}
+	}
+	if corrupt >= 0 {
+		// the worker stopped by itself after the call that damaged global state; its outcome is recorded
+		reason = "corrupt|" + jobs[corrupt].Pkg + ":" + jobs[corrupt].Fn + " with " + strconv.Itoa(jobs[corrupt].N) + " arguments"
+		return
 	}
 	if len(done) < len(jobs) {
 		culprit = started
@@ -451,6 +464,10 @@ func runJobs(jobs []CaseB) []outcomeB {
 			batch[k] = jobs[i]
 		}
 		done, culprit, reason := runChild(batch)
+		if strings.HasPrefix(reason, "corrupt|") {
+			h.Class("B:worker-restarted-after-a-call-damaged-global-state", 1)
+			h.Note("worker restarted: the call (%s) left the interpreter unable to signal an argument count error", strings.TrimPrefix(reason, "corrupt|"))
+		}
 		var next []int
 		for k, i := range pending {
 			if o, ok := done[k]; ok {
@@ -532,6 +549,15 @@ func TestB(t *testing.T) {
 		}(all[lo:hi])
 	}
 	wg.Wait()
+	if path := os.Getenv("C04_DUMP_B"); path != "" {
+		// development aid: every outcome, one per line
+		var sb strings.Builder
+		for _, j := range all {
+			o := cacheB[j]
+			fmt.Fprintf(&sb, "%s:%s\t%d\t%s\t%s\t%s\n", j.Pkg, j.Fn, j.N, o.Kind, o.Class, o.Msg)
+		}
+		_ = os.WriteFile(path, []byte(sb.String()), 0o644)
+	}
 	h.Note("part B: %d functions in %d packages, %d on the deny list (not called), %d (function, count) calls in this shard",
 		len(fns), len(slip.AllPackages())-1, len(deny), len(all))
 	h.Enumerate(t, propB, func(yield func(CaseB) bool) {
